@@ -1909,12 +1909,26 @@ async fn gen_c05(w: &mut World, g: &mut Gen, heights: usize, bb: u64) {
         let mut prepared_by: Vec<Option<u32>> = vec![None; K];
         let mut blocks: Vec<u32> = vec![];
         let mut final_proposer = 0;
+        // with some probability the decided round's proposal avoids every transaction that was
+        // proposed in an earlier round of this height (so that leftovers of a rejected round in a
+        // validator's working state do not simply collide with the decided proposal's nonces)
+        let disjoint = rounds > 1 && g.rng.chance(50);
+        let mut proposed_earlier: Vec<u32> = vec![];
         for r in 0..rounds {
             let proposer = g.rng.below(K as u64) as usize;
             final_proposer = proposer;
             w.run(&format!("abci clearmp i={proposer}")).await;
             for t in &pool {
-                if r + 1 == rounds || g.rng.chance(60) {
+                let last = r + 1 == rounds;
+                let take = if last {
+                    !(disjoint && proposed_earlier.contains(t))
+                } else if disjoint {
+                    // earlier rounds of a disjoint height: whole signers, so that the rest stays executable
+                    ["alice", "sudo"].contains(&w.txs[t].signer.as_str())
+                } else {
+                    g.rng.chance(60)
+                };
+                if take {
                     w.run(&format!("abci insert i={proposer} t=t{t}")).await;
                 }
             }
@@ -1940,6 +1954,29 @@ async fn gen_c05(w: &mut World, g: &mut Gen, heights: usize, bb: u64) {
             prepared_by[proposer] = Some(b);
             blocks.push(b);
             if r + 1 < rounds {
+                for (_, kind) in &w.blks[&b].items {
+                    if let ItemKind::Tx(t) = kind {
+                        proposed_earlier.push(*t);
+                    }
+                }
+                // a copy of the proposal that is rejected part-way (a transaction replayed): some
+                // validators see it instead of / in addition to the honest one
+                if g.rng.chance(if disjoint { 90 } else { 25 }) {
+                    let m = g.blk();
+                    let r = w
+                        .run(&format!("abci mutate b=b{m} from=b{b} k=dup x={}", g.rng.below(64)))
+                        .await;
+                    if r.starts_with("ok") {
+                        for i in 0..K {
+                            if i != proposer && g.rng.chance(60) {
+                                if g.rng.chance(40) {
+                                    w.run(&format!("abci process i={i} b=b{b}")).await;
+                                }
+                                w.run(&format!("abci process i={i} b=b{m}")).await;
+                            }
+                        }
+                    }
+                }
                 // an undecided round: some validators see the proposal, some do not
                 if g.rng.chance(30) {
                     // the proposer first sees a malformed copy of its own proposal (fingerprint
